@@ -142,7 +142,7 @@ def check_history(ctx, c):
         return
     if e1 is not None:
         return ctx.skip("transform failed (%s) - judged by C01" % type(e1).__name__)
-    _, _, bad = call(est, "transform", c2, "test")
+    o2, _, bad = call(est, "transform", c2, "test")
     if bad:
         return
     if name in ("Wasserstein", "Sinkhorn") and p.get("input_method", "spmatrix") == "spmatrix":
@@ -152,9 +152,16 @@ def check_history(ctx, c):
         rp.shuffle(perm)
         inv = {old: new for new, old in enumerate(perm)}
         c3 = dict(c, vectors=[c["vectors"][old] for old in perm], test=[[[inv[j], v] for j, v in row] for row in c["train"]])
-        _, _, bad = call(est, "transform", c3, "test")
+        o3, e3, bad = call(est, "transform", c3, "test")
         if bad:
             return
+        if o2 is not None and o3 is not None and p.get("method") != "HeuristicLinearAlgebra":
+            sc = max(1.0, float(np.max(np.abs(o2))))
+            t3 = (1e-9 if p.get("method") == "LOT_exact" else 1e-6) * sc
+            if np.shape(o3) != np.shape(o2) or np.max(np.abs(np.asarray(o3) - np.asarray(o2))) > t3:
+                viol("transform-depends-on-earlier-call", "the same measures over a permuted vector table, transformed after a call with the original table, get different embeddings (%.3g)" % (
+                    float(np.max(np.abs(np.asarray(o3) - np.asarray(o2)))) if np.shape(o3) == np.shape(o2) else float("nan")))
+                return
     o1b, e1b, bad = call(est, "transform", c1, "test")
     if bad:
         return
